@@ -15,7 +15,7 @@ func init() {
 			"the consumer hands over only non-nil loaded slots, clears a slot before the head is published, stops at the first unpublished slot and advances the head once per delivered element; the stripe table and stripe slots are written only inside the busy region, which is always left; expansion copies every existing stripe; draining happens only under the eviction lock; "+
 			"the status returned by Add influences nothing but the drain-scheduling decision. NOT decided: absence of loss/duplication over all interleavings.",
 		[]string{"sync/atomic operations are sequentially consistent", "a single consumer drains (decided by C17.single)"},
-		ruleC17Reserve, ruleC17Drain, ruleC17Busy, ruleC17Copy, ruleC17Single, ruleC17NoEffect, ruleC17OnceAdd)
+		ruleC17Reserve, ruleC17Drain, ruleC17Busy, ruleC17Copy, ruleC17Single, ruleC17NoEffect, ruleC17OnceAdd, ruleC17Current)
 }
 
 const lossyPkg = "internal/lossy"
@@ -196,7 +196,7 @@ func ruleC17Drain(cx *Ctx) {
 			publish = in
 		default:
 			if cc := callCommon(in); cc != nil && !cc.IsInvoke() {
-				if p, ok := cc.Value.(*ssa.Parameter); ok && p == fn.Params[1] {
+				if p, ok := cc.Value.(*ssa.Parameter); ok && p == bparam(fn, 1) {
 					consume = in
 				}
 			}
@@ -651,6 +651,143 @@ func ruleC17OnceAdd(cx *Ctx) {
 						cx.R.OK(rule, name, fmt.Sprintf("after add#%d", n), cx.P.where(in), "no further recording after this add")
 					}
 				}
+			}
+		})
+	}
+}
+
+// ruleC17Current: writes into the shared stripe table act on the table that is current while the busy flag is held.
+func ruleC17Current(cx *Ctx) {
+	const rule = "C17.current"
+	cx.R.Rule(rule, 2, "a ring is attached to a slot of, and a new stripe table replaces, only the table that is current under the busy flag: the table was loaded from Striped.striped while the flag is held, or a load made under the flag was compared equal to it (a snapshot taken before the flag was won may already have been replaced by a concurrent expansion: the attached ring and its element would be lost)")
+	stripedF := cx.needField(rule, lossyPkg, "Striped", "striped")
+	buffers := cx.needField(rule, lossyPkg, "striped", "buffers")
+	bc := busyContext(cx)
+	if stripedF == nil || buffers == nil || bc == nil {
+		if bc == nil {
+			cx.R.Undecided(rule, "lossy", "busy context", "-", "busy-flag context analysis unavailable")
+		}
+		return
+	}
+	isTableLoad := func(v ssa.Value) (*ssa.Call, bool) {
+		c, ok := v.(*ssa.Call)
+		if ok && isStdMethod(c, "sync/atomic", "Pointer", "Load") && sameField(recvField(c), stripedF) {
+			return c, true
+		}
+		return nil, false
+	}
+	// current(v, at): v denotes the table that is current under the flag at instruction `at`
+	var current func(v ssa.Value, at ssa.Instruction, depth int) (bool, string)
+	current = func(v ssa.Value, at ssa.Instruction, depth int) (bool, string) {
+		if c, ok := isTableLoad(v); ok {
+			if bc.heldAt(c) {
+				return true, "loaded under the flag"
+			}
+			// fallthrough: a snapshot, needs the comparison
+		}
+		for _, g := range guardsAt(at.Block()) {
+			b, ok := g.Cond.(*ssa.BinOp)
+			if !ok || (b.Op != token.EQL && b.Op != token.NEQ) || g.Truth != (b.Op == token.EQL) {
+				continue
+			}
+			for _, pair := range [][2]ssa.Value{{b.X, b.Y}, {b.Y, b.X}} {
+				if ld, ok := isTableLoad(pair[0]); ok && pair[1] == v && bc.heldAt(ld) {
+					return true, "compared with a load made under the flag"
+				}
+			}
+		}
+		if p, ok := v.(*ssa.Parameter); ok && depth < 3 {
+			fn := p.Parent()
+			idx := -1
+			for i, q := range fn.Params {
+				if q == p {
+					idx = i
+				}
+			}
+			sites := 0
+			for _, caller := range cx.P.FuncsOfPkg(lossyPkg) {
+				okAll := true
+				var why string
+				allInstrs(caller, func(in ssa.Instruction) {
+					cc := callCommon(in)
+					if cc == nil || cc.IsInvoke() || cc.StaticCallee() == nil || origin(cc.StaticCallee()) != origin(fn) || idx >= len(cc.Args) {
+						return
+					}
+					sites++
+					if ok, w := current(cc.Args[idx], in, depth+1); !ok {
+						okAll = false
+						why = "call at " + cx.P.where(in) + ": " + w
+					}
+				})
+				if !okAll {
+					return false, why
+				}
+			}
+			if sites > 0 {
+				return true, "every caller passes the current table"
+			}
+		}
+		return false, "the table value is a snapshot that is neither loaded nor re-validated under the busy flag"
+	}
+	n := 0
+	for _, fn := range cx.P.FuncsOfPkg(lossyPkg) {
+		name := funcName(fn)
+		allInstrs(fn, func(in ssa.Instruction) {
+			if !isStdMethod(in, "sync/atomic", "Pointer", "Store") {
+				return
+			}
+			// slot store
+			if ia, ok := recvValue(in).(*ssa.IndexAddr); ok && sameField(fieldOf(ia.X), buffers) {
+				fa, _ := stripLoad(ia.X).(*ssa.FieldAddr)
+				if fa == nil {
+					return
+				}
+				if _, fresh := fa.X.(*ssa.Alloc); fresh {
+					return // table under construction (C17.copy / C17.busy)
+				}
+				n++
+				ok, why := current(fa.X, in, 0)
+				cx.R.Check(ok, rule, name, fmt.Sprintf("attach #%d", n), cx.P.where(in), "the slot written belongs to the table current under the busy flag ("+why+")")
+				return
+			}
+			// publish
+			if sameField(recvField(in), stripedF) {
+				n++
+				a := callArgs(in)
+				_, fresh := a[0].(*ssa.Alloc)
+				// the tables the new one was derived from: every table value read in this function that is not the new one
+				okAny, whyAny := false, "no table value re-validated under the flag justifies the replacement"
+				seen := map[ssa.Value]bool{}
+				allInstrs(fn, func(x ssa.Instruction) {
+					v, isV := x.(ssa.Value)
+					if !isV {
+						return
+					}
+					if _, isLd := isTableLoad(v); !isLd {
+						if _, isP := v.(*ssa.Parameter); !isP {
+							return
+						}
+					}
+					if seen[v] || !instrDominates(x, in) {
+						return
+					}
+					seen[v] = true
+					if ok, why := current(v, in, 0); ok {
+						okAny, whyAny = true, why
+					}
+				})
+				for _, p := range fn.Params {
+					if okAny {
+						break
+					}
+					if namedTypeName(p.Type()) != "striped" {
+						continue
+					}
+					if ok, why := current(p, in, 0); ok {
+						okAny, whyAny = true, why
+					}
+				}
+				cx.R.Check(fresh && okAny, rule, name, fmt.Sprintf("publish #%d", n), cx.P.where(in), "a freshly built table replaces the table that is current under the busy flag ("+whyAny+")")
 			}
 		})
 	}
